@@ -1,0 +1,184 @@
+//go:build verif
+
+package nfsv4
+
+import (
+	"github.com/buildbarn/go-xdr/pkg/protocols/nfsv4"
+)
+
+// Read-only state table probes for the runtime verification harnesses
+// (properties C18 and C19). All counts are taken under the program's
+// own locks. They never call enter(), so that taking a probe does not
+// expire any clients or open-owners as a side effect.
+
+// VerifStateCounts returns the number of client, session, owner, open
+// and lock records that an NFSv4 program currently retains. Keys are
+// prefixed with "v40." or "v41.". known is false if the program is not
+// one that was created by NewNFS40Program(), NewNFS41Program(),
+// NewMinorVersionFallbackProgram() or NewMetricsProgram().
+func VerifStateCounts(program nfsv4.Nfs4Program) (counts map[string]int, known bool) {
+	counts = map[string]int{}
+	return counts, verifStateCountsInto(program, counts)
+}
+
+// verifLockCount reads a lock count field, no matter whether it is
+// stored by value or as a counter that is shared between lock-owner
+// files (in which case it is only counted once).
+func verifLockCount(field any, seen map[*int]struct{}) int {
+	switch v := field.(type) {
+	case int:
+		return v
+	case *int:
+		if _, ok := seen[v]; ok || v == nil {
+			return 0
+		}
+		seen[v] = struct{}{}
+		return *v
+	default:
+		return 0
+	}
+}
+
+func verifStateCountsInto(program nfsv4.Nfs4Program, counts map[string]int) bool {
+	seenLockCounts := map[*int]struct{}{}
+	switch p := program.(type) {
+	case *nfs40Program:
+		p.lock.Lock()
+		defer p.lock.Unlock()
+
+		counts["v40.clients"] += len(p.clientsByLongID)
+		counts["v40.clientConfirmations"] += len(p.clientConfirmationsByKey)
+		counts["v40.clientConfirmationsByShortID"] += len(p.clientConfirmationsByShortID)
+		counts["v40.openOwnerFiles"] += len(p.openOwnerFilesByOther)
+		counts["v40.lockOwnerFiles"] += len(p.lockOwnerFilesByOther)
+		for ccs := p.idleClientConfirmations.nextIdle; ccs != &p.idleClientConfirmations; ccs = ccs.nextIdle {
+			counts["v40.idleClientConfirmations"]++
+		}
+		for oos := p.unusedOpenOwners.nextUnused; oos != &p.unusedOpenOwners; oos = oos.nextUnused {
+			counts["v40.unusedOpenOwners"]++
+		}
+		for _, confirmation := range p.clientConfirmationsByKey {
+			counts["v40.holdCount"] += confirmation.holdCount
+		}
+		for _, client := range p.clientsByLongID {
+			counts["v40.clientConfirmationsByClientVerifier"] += len(client.confirmationsByClientVerifier)
+			confirmedClient := client.confirmed
+			if confirmedClient == nil {
+				continue
+			}
+			counts["v40.confirmedClients"]++
+			counts["v40.openOwners"] += len(confirmedClient.openOwners)
+			counts["v40.lockOwners"] += len(confirmedClient.lockOwners)
+			for _, oos := range confirmedClient.openOwners {
+				counts["v40.openOwnerFilesByHandle"] += len(oos.filesByHandle)
+				if oos.currentTransactionWait != nil {
+					counts["v40.openOwnerTransactions"]++
+				}
+				for _, oofs := range oos.filesByHandle {
+					counts["v40.shareCountReaders"] += int(oofs.shareCount.readers)
+					counts["v40.shareCountWriters"] += int(oofs.shareCount.writers)
+					counts["v40.lockOwnerFilesByOpenOwnerFile"] += len(oofs.lockOwnerFiles)
+				}
+			}
+			for _, los := range confirmedClient.lockOwners {
+				counts["v40.lockOwnerFilesByLockOwner"] += len(los.files)
+				for _, lofs := range los.files {
+					counts["v40.lockCount"] += verifLockCount(lofs.lockCount, seenLockCounts)
+				}
+			}
+		}
+		return true
+	case *nfs41Program:
+		p.clientsLock.Lock()
+		defer p.clientsLock.Unlock()
+
+		counts["v41.clients"] += len(p.clientsByOwnerID)
+		counts["v41.clientIncarnations"] += len(p.clientIncarnationsByClientID)
+		counts["v41.sessions"] += len(p.sessionsBySessionID)
+		for cis := p.idleClientIncarnations.nextIdle; cis != &p.idleClientIncarnations; cis = cis.nextIdle {
+			counts["v41.idleClientIncarnations"]++
+		}
+		for _, client := range p.clientsByOwnerID {
+			counts["v41.clientIncarnationsByClientVerifier"] += len(client.incarnationsByClientVerifier)
+			if client.confirmedIncarnation != nil {
+				counts["v41.confirmedClients"]++
+			}
+		}
+		for _, cis := range p.clientIncarnationsByClientID {
+			counts["v41.holdCount"] += cis.holdCount
+			for ss := cis.sessions.next; ss != &cis.sessions; ss = ss.next {
+				counts["v41.sessionsByClientIncarnation"]++
+				for i := range ss.slots {
+					if ss.slots[i].currentSequenceWaiters != nil {
+						counts["v41.busySlots"]++
+					}
+				}
+			}
+
+			// The maps below are protected by the incarnation's
+			// own lock if one or more compounds are in flight.
+			cis.lock.RLock()
+			counts["v41.openOwners"] += len(cis.openOwnersByOwner)
+			counts["v41.openOwnerFiles"] += len(cis.openOwnerFilesByOther)
+			counts["v41.lockOwners"] += len(cis.lockOwnersByOwner)
+			counts["v41.lockOwnerFiles"] += len(cis.lockOwnerFilesByOther)
+			referencedLockOwners := map[*nfs41LockOwnerState]struct{}{}
+			for _, oos := range cis.openOwnersByOwner {
+				counts["v41.openOwnerFilesByHandle"] += len(oos.filesByHandle)
+				for _, oofs := range oos.filesByHandle {
+					counts["v41.shareCountReaders"] += int(oofs.shareCount.readers)
+					counts["v41.shareCountWriters"] += int(oofs.shareCount.writers)
+					counts["v41.lockOwnerFilesByOpenOwnerFile"] += len(oofs.lockOwnerFiles)
+				}
+			}
+			for _, lofs := range cis.lockOwnerFilesByOther {
+				counts["v41.lockCount"] += verifLockCount(lofs.lockCount, seenLockCounts)
+				referencedLockOwners[lofs.lockOwner] = struct{}{}
+			}
+			counts["v41.lockOwnersReferenced"] += len(referencedLockOwners)
+			for los := range referencedLockOwners {
+				if cis.lockOwnersByOwner[string(los.owner.Owner)] != los {
+					counts["v41.lockOwnersUnregistered"]++
+				}
+			}
+			cis.lock.RUnlock()
+		}
+		return true
+	case *minorVersionFallbackProgram:
+		known := true
+		for _, backend := range p.backends {
+			known = verifStateCountsInto(backend, counts) && known
+		}
+		return known
+	case *metricsProgram:
+		return verifStateCountsInto(p.Nfs4Program, counts)
+	default:
+		return false
+	}
+}
+
+// VerifOpenedFilesPoolCounts returns the number of files that are kept
+// resolvable by an OpenedFilesPool ("pool.openedFiles") and the sum of
+// their use counts ("pool.useCount").
+func VerifOpenedFilesPoolCounts(ofp *OpenedFilesPool) map[string]int {
+	ofp.lock.RLock()
+	defer ofp.lock.RUnlock()
+
+	counts := map[string]int{
+		"pool.openedFiles": len(ofp.filesByHandle),
+	}
+	for _, of := range ofp.filesByHandle {
+		counts["pool.useCount"] += int(of.useCount)
+	}
+	return counts
+}
+
+// VerifOpenedFilesPoolHas returns whether the OpenedFilesPool currently
+// keeps the file with the provided handle resolvable.
+func VerifOpenedFilesPoolHas(ofp *OpenedFilesPool, handle nfsv4.NfsFh4) bool {
+	ofp.lock.RLock()
+	defer ofp.lock.RUnlock()
+
+	_, ok := ofp.filesByHandle[string(handle)]
+	return ok
+}
